@@ -778,15 +778,24 @@ func ruleOPT3(c *Ctx) {
 				if len(r.Results) != 2 {
 					continue
 				}
-				ast.Inspect(r.Results[0], func(nn ast.Node) bool {
-					if e, ok := nn.(ast.Expr); ok {
-						if f := SelField(gi, e); f != nil && structFieldOf(p, f) {
-							pr.Field = f
-							return false
-						}
+				srcs := []ast.Node{r.Results[0]}
+				// the returned value may first be bound to a local (`m, _ := src.X.(*T); return m, true`)
+				if v := IdentObj(gi, r.Results[0]); v != nil {
+					for _, d := range defsOf(gi, body, v) {
+						srcs = append(srcs, d)
 					}
-					return true
-				})
+				}
+				for _, src := range srcs {
+					ast.Inspect(src, func(nn ast.Node) bool {
+						if e, ok := nn.(ast.Expr); ok {
+							if f := SelField(gi, e); f != nil && structFieldOf(p, f) {
+								pr.Field = f
+								return false
+							}
+						}
+						return true
+					})
+				}
 			}
 			if n == 1 && pr.Field != nil {
 				gm[name] = pr
